@@ -295,6 +295,194 @@ theorem connectOut_inv {PI} {m : Circ} {nm : NMap} {st st' : Circ × List Nat} {
       have s1 := setDriver_sinv inv.s hpll (inv.nm e he) (by simpa using hg)
       exact ⟨s1.congr_pred (fun _ => Iff.rfl) (fun l => (pend_cons_some hnd l).symm), inv.nm, inv.dang⟩
 
+/-! ## making the outputs of the copied forks dense again -/
+theorem pin_map_some (L : List Nat) (p : Nat) : pin (L.map some) p = L[p]? := by
+  rw [pin_eq_getElem?, List.getElem?_map]
+  cases L[p]? <;> rfl
+
+theorem densifyNode_frame (c : Circ) (v : Nat) :
+    (densifyNode c v).nodes = c.nodes ∧ (densifyNode c v).lines = c.lines ∧ (densifyNode c v).io = c.io ∧
+    (densifyNode c v).cells = c.cells ∧ (densifyNode c v).forks = c.forks ∧ (densifyNode c v).nextN = c.nextN ∧
+    (densifyNode c v).nextL = c.nextL ∧
+    (∀ j, ((densifyNode c v).nobj j).name = (c.nobj j).name ∧ ((densifyNode c v).nobj j).kind = (c.nobj j).kind ∧
+      ((densifyNode c v).nobj j).index = (c.nobj j).index ∧ ((densifyNode c v).nobj j).alive = (c.nobj j).alive ∧
+      ((densifyNode c v).nobj j).ins = (c.nobj j).ins ∧ (j ≠ v → ((densifyNode c v).nobj j).outs = (c.nobj j).outs)) := by
+  unfold densifyNode
+  simp only
+  split
+  · refine ⟨rfl, rfl, rfl, rfl, rfl, rfl, rfl, ?_⟩
+    intro j
+    by_cases hj : j = v
+    · subst hj; simp
+    · simp [hj]
+  · exact ⟨rfl, rfl, rfl, rfl, rfl, rfl, rfl, fun j => ⟨rfl, rfl, rfl, rfl, rfl, fun _ => rfl⟩⟩
+
+/-- after the step the outputs of `v` are gap-free if `v` is a fork -/
+theorem densifyNode_full (c : Circ) (v : Nat) (hk : (c.nobj v).kind = FORK) : none ∉ ((densifyNode c v).nobj v).outs := by
+  unfold densifyNode
+  simp only
+  split
+  · simp
+  · rename_i hc
+    simp only [hk, beq_self_eq_true, Bool.true_and, Bool.not_eq_true] at hc
+    intro hm
+    have : (c.nobj v).outs.any (·.isNone) = true := List.any_eq_true.2 ⟨none, hm, rfl⟩
+    rw [this] at hc; cases hc
+
+theorem densifyNode_wf0 {c : Circ} {v : Nat} (wf : WFc0 c) (hv : v ∈ c.nodes) : WFc0 (densifyNode c v) := by
+  unfold densifyNode
+  simp only
+  split
+  · -- the outputs are squeezed and the driver pins renumbered
+    have hinj : ∀ p q y, pin (c.nobj v).outs p = some y → pin (c.nobj v).outs q = some y → p = q := by
+      intro p q y a b
+      have := (wf.outsBack v hv p y a).2.2; have := (wf.outsBack v hv q y b).2.2; omega
+    have hnd : ((c.nobj v).outs.filterMap id).Nodup := filterMap_pin_nodup hinj
+    have hinj2 : ∀ p q y, pin (((c.nobj v).outs.filterMap id).map some) p = some y →
+        pin (((c.nobj v).outs.filterMap id).map some) q = some y → p = q := by
+      intro p q y a b
+      rw [pin_map_some] at a b
+      have ha := (List.getElem?_eq_some_iff.1 a)
+      have hb := (List.getElem?_eq_some_iff.1 b)
+      obtain ⟨h1, e1⟩ := ha; obtain ⟨h2, e2⟩ := hb
+      have hpw := List.pairwise_iff_getElem.1 hnd
+      rcases Nat.lt_trichotomy p q with hlt | heq | hgt
+      · exact absurd (e1.trans e2.symm) (hpw p q h1 h2 hlt)
+      · exact heq
+      · exact absurd (e2.trans e1.symm) (hpw q p h2 h1 hgt)
+    have hmem2 : ∀ p y, pin (((c.nobj v).outs.filterMap id).map some) p = some y → ∃ q, pin (c.nobj v).outs q = some y := by
+      intro p y a
+      rw [pin_map_some] at a
+      exact mem_filterMap_pin.1 (List.mem_of_getElem? a)
+    have hf := fun x => renumber_fields c.lobj (((c.nobj v).outs.filterMap id).map some) 0 x
+    have hin : ∀ x p, pin (((c.nobj v).outs.filterMap id).map some) p = some x →
+        ((renumber c.lobj (((c.nobj v).outs.filterMap id).map some) 0).get x).driverPin = p := by
+      intro x p hp
+      rw [renumber_in _ _ 0 x p hinj2 hp]; omega
+    have hout : ∀ x, (∀ q, pin (c.nobj v).outs q ≠ some x) →
+        (renumber c.lobj (((c.nobj v).outs.filterMap id).map some) 0).get x = c.lobj x := by
+      intro x hx
+      apply renumber_notin
+      intro p hp
+      obtain ⟨q, hq⟩ := hmem2 p x hp
+      exact hx q hq
+    refine ⟨?_, ?_, ?_, ?_, wf.ckeys, wf.fkeys, ?_, ?_, ?_, ?_, ?_, ?_, ?_, ?_, wf.ioIn⟩
+    · intro p hp
+      show ((upd c.nobj v _).get _).index = p
+      have := wf.nidx p hp
+      by_cases hj : c.nodes[p] = v
+      · simp only [upd_get, hj, if_true]; rw [← hj]; exact this
+      · simp only [upd_get, hj, if_false]; exact this
+    · intro p hp; show ((renumber _ _ _).get _).index = p; rw [(hf _).1]; exact wf.lidx p hp
+    · intro j hj
+      show _ ∧ ((upd c.nobj v _).get j).alive = true
+      have := wf.nfresh j hj
+      by_cases hjv : j = v
+      · subst hjv; simp only [upd_get, if_true]; exact this
+      · simp only [upd_get, hjv, if_false]; exact this
+    · intro x hx; show _ ∧ ((renumber _ _ _).get x).alive = true; rw [(hf x).2.2.2.2]; exact wf.lfresh x hx
+    · intro e he
+      obtain ⟨h1, h2, h3⟩ := wf.cellsSound e he
+      show _ ∧ ((upd c.nobj v _).get e.2).kind ≠ FORK ∧ ((upd c.nobj v _).get e.2).name = e.1
+      by_cases hjv : e.2 = v
+      · simp only [upd_get, hjv, if_true]; rw [hjv] at h2 h3; exact ⟨hjv ▸ h1, h2, h3⟩
+      · simp only [upd_get, hjv, if_false]; exact ⟨h1, h2, h3⟩
+    · intro e he
+      obtain ⟨h1, h2, h3⟩ := wf.forksSound e he
+      show _ ∧ ((upd c.nobj v _).get e.2).kind = FORK ∧ ((upd c.nobj v _).get e.2).name = e.1
+      by_cases hjv : e.2 = v
+      · simp only [upd_get, hjv, if_true]; rw [hjv] at h2 h3; exact ⟨hjv ▸ h1, h2, h3⟩
+      · simp only [upd_get, hjv, if_false]; exact ⟨h1, h2, h3⟩
+    · intro j hj hk
+      show (((upd c.nobj v _).get j).name, j) ∈ c.cells
+      by_cases hjv : j = v
+      · subst hjv; simp only [upd_get, if_true] at hk ⊢; exact wf.cellsComplete j hj hk
+      · simp only [upd_get, hjv, if_false] at hk ⊢; exact wf.cellsComplete j hj hk
+    · intro j hj hk
+      show (((upd c.nobj v _).get j).name, j) ∈ c.forks
+      by_cases hjv : j = v
+      · subst hjv; simp only [upd_get, if_true] at hk ⊢; exact wf.forksComplete j hj hk
+      · simp only [upd_get, hjv, if_false] at hk ⊢; exact wf.forksComplete j hj hk
+    · -- ldrv
+      intro x hx
+      obtain ⟨d, e1, e2, e3⟩ := wf.ldrv x hx
+      refine ⟨d, by show ((renumber _ _ _).get x).driver = _; rw [(hf x).2.1]; exact e1, e2, ?_⟩
+      show pin ((upd c.nobj v _).get d).outs ((renumber _ _ _).get x).driverPin = some x
+      by_cases hdv : d = v
+      · subst hdv
+        simp only [upd_get, if_true]
+        have hxm : x ∈ (c.nobj d).outs.filterMap id := mem_filterMap_pin.2 ⟨_, e3⟩
+        obtain ⟨p, hp, hpe⟩ := List.mem_iff_getElem.1 hxm
+        have hpp : pin (((c.nobj d).outs.filterMap id).map some) p = some x := by
+          rw [pin_map_some, List.getElem?_eq_getElem hp, hpe]
+        rw [hin x p hpp]; exact hpp
+      · simp only [upd_get, hdv, if_false]
+        rw [hout x (by
+          intro q hq
+          have := (wf.outsBack v hv q x hq).2.1
+          rw [e1] at this; exact hdv (Option.some.inj this))]
+        exact e3
+    · -- lrdr
+      intro x hx
+      obtain ⟨r, e1, e2, e3⟩ := wf.lrdr x hx
+      refine ⟨r, by show ((renumber _ _ _).get x).reader = _; rw [(hf x).2.2.1]; exact e1, e2, ?_⟩
+      show pin ((upd c.nobj v _).get r).ins ((renumber _ _ _).get x).readerPin = some x
+      rw [(hf x).2.2.2.1]
+      by_cases hrv : r = v
+      · subst hrv; simp only [upd_get, if_true]; exact e3
+      · simp only [upd_get, hrv, if_false]; exact e3
+    · -- outsBack
+      intro j hj p x hp
+      show x ∈ c.lines ∧ ((renumber _ _ _).get x).driver = some j ∧ ((renumber _ _ _).get x).driverPin = p
+      by_cases hjv : j = v
+      · subst hjv
+        have hp' : pin (((c.nobj j).outs.filterMap id).map some) p = some x := by
+          have : ((upd c.nobj j { c.nobj j with outs := ((c.nobj j).outs.filterMap id).map some }).get j).outs =
+              ((c.nobj j).outs.filterMap id).map some := by simp
+          rw [← this]; exact hp
+        obtain ⟨q, hq⟩ := hmem2 p x hp'
+        obtain ⟨b1, b2, _⟩ := wf.outsBack j hj q x hq
+        exact ⟨b1, by rw [(hf x).2.1]; exact b2, hin x p hp'⟩
+      · have hp' : pin (c.nobj j).outs p = some x := by
+          have : ((upd c.nobj v { c.nobj v with outs := ((c.nobj v).outs.filterMap id).map some }).get j).outs = (c.nobj j).outs := by
+            simp [hjv]
+          rw [← this]; exact hp
+        obtain ⟨b1, b2, b3⟩ := wf.outsBack j hj p x hp'
+        rw [hout x (by
+          intro q hq
+          have := (wf.outsBack v hv q x hq).2.1
+          rw [b2] at this; exact hjv (Option.some.inj this))]
+        exact ⟨b1, b2, b3⟩
+    · -- insBack
+      intro j hj p x hp
+      show x ∈ c.lines ∧ ((renumber _ _ _).get x).reader = some j ∧ ((renumber _ _ _).get x).readerPin = p
+      have hp' : pin (c.nobj j).ins p = some x := by
+        have : ((upd c.nobj v { c.nobj v with outs := ((c.nobj v).outs.filterMap id).map some }).get j).ins = (c.nobj j).ins := by
+          by_cases hjv : j = v
+          · subst hjv; simp
+          · simp [hjv]
+        rw [← this]; exact hp
+      obtain ⟨b1, b2, b3⟩ := wf.insBack j hj p x hp'
+      exact ⟨b1, by rw [(hf x).2.2.1]; exact b2, by rw [(hf x).2.2.2.1]; exact b3⟩
+  · exact wf
+
+theorem densify_wf0 : ∀ (vs : List Nat) (c : Circ), WFc0 c → (∀ v ∈ vs, v ∈ c.nodes) → WFc0 (vs.foldl densifyNode c) := by
+  intro vs
+  induction vs with
+  | nil => intro c wf _; exact wf
+  | cons v vs ih =>
+    intro c wf hv
+    simp only [List.foldl_cons]
+    apply ih _ (densifyNode_wf0 wf (hv v (by simp)))
+    intro x hx
+    rw [(densifyNode_frame c v).1]; exact hv x (by simp [hx])
+
+theorem densify_nodes : ∀ (vs : List Nat) (c : Circ), (vs.foldl densifyNode c).nodes = c.nodes := by
+  intro vs
+  induction vs with
+  | nil => intro c; rfl
+  | cons v vs ih => intro c; simp only [List.foldl_cons]; rw [ih, (densifyNode_frame c v).1]
+
 /-! ## removal of the dangling logic -/
 theorem dangling_inv {own : List Nat} : ∀ (dang : List Nat) (c c' : Circ), WFc0 c →
     (∀ n ∈ dang, n ∈ c.nodes ∨ (c.nobj n).alive = false) → foldO (danglingStep own) c dang = some c' → WFc0 c' := by
@@ -427,7 +615,15 @@ theorem substituteObj_wf0 {c c' : Circ} {i : Nat} {m : Circ} (wf : WFc0 c) (hpre
               ⟨⟨i4.1.s.congr_pred (fun _ => Iff.rfl) (fun l => zip_padTo_pend har'.2 l), i4.1.nm, fun n hn => by simp at hn⟩,
                zip_padTo_pendNodup har'.2 hinjO⟩ g5 h5
             have wf5 : WFc0 c5 := i5.1.s.to_wfc0 (fun l _ => pend_nil l) (fun l _ => pend_nil l)
-            exact dangling_inv dang c5 c' wf5 (fun n hn => Or.inl (i5.1.dang n hn)) h
+            have hvals : ∀ v ∈ nm.map (·.2), v ∈ c5.nodes := by
+              intro v hv
+              obtain ⟨e, he, rfl⟩ := List.mem_map.1 hv
+              exact i5.1.nm e he
+            have wf5d : WFc0 (densify c5 nm) := densify_wf0 _ c5 wf5 hvals
+            exact dangling_inv dang (densify c5 nm) c' wf5d (fun n hn => Or.inl (by
+              show n ∈ (densify c5 nm).nodes
+              unfold densify
+              rw [densify_nodes]; exact i5.1.dang n hn)) h
 
 theorem forksFull_ffull {c : Circ} (h : forksFull c = true) : FFull c := by
   intro i hi hk hnone
